@@ -190,6 +190,82 @@ func TestVerifC07RawMutation(t *testing.T) {
 	})
 }
 
+// Valid-but-unusual hellos: bodies of existing extensions replaced by strict (length-consistent) boundary shapes
+// (single-entry / GREASE-only / long lists, several PSK identities, small ECH payloads, unknown groups), extensions
+// added (each type at most once, pre_shared_key last), dropped or reordered. Most cases stay syntactically valid,
+// which is what the second sentence of the property quantifies over.
+func TestVerifC07ValidUnusual(t *testing.T) {
+	st := vfNewStats(t, "C07")
+	seeds := vf07MustSeeds(t)
+	rapid.Check(t, func(rt *rapid.T) {
+		s := seeds[rapid.IntRange(0, len(seeds)-1).Draw(rt, "seed")]
+		m := vf07ParseRec(s.Rec)
+		n := rapid.IntRange(1, 4).Draw(rt, "nops")
+		var ops []string
+		for k := 0; k < n; k++ {
+			l := fmt.Sprintf("v%d", k)
+			have := map[uint16]bool{}
+			for _, e := range m.Exts {
+				have[e.Typ] = true
+			}
+			lastIsPSK := len(m.Exts) > 0 && m.Exts[len(m.Exts)-1].Typ == 41
+			movable := len(m.Exts)
+			if lastIsPSK {
+				movable--
+			}
+			op := []string{"strictBody", "strictBody", "addStrict", "addStrict", "drop", "swap"}[rapid.IntRange(0, 5).Draw(rt, l+"_op")]
+			switch op {
+			case "strictBody":
+				if len(m.Exts) > 0 {
+					i := rapid.IntRange(0, len(m.Exts)-1).Draw(rt, l+"_i")
+					m.Exts[i].Body = vf07GenBody(rt, vf07StrictMark+l+"_b", m.Exts[i].Typ)
+				}
+			case "addStrict":
+				typ := vf07ExtTypes[rapid.IntRange(0, len(vf07ExtTypes)-1).Draw(rt, l+"_t")]
+				if rapid.Bool().Draw(rt, l+"_rich") {
+					typ = []uint16{51, 41, 0xfe0d, 43, 0, 16, 17513, 24, 17}[rapid.IntRange(0, 8).Draw(rt, l+"_rt")]
+				}
+				if have[typ] || (lastIsPSK && typ == 41) {
+					op = "addStrict(skipped: present)"
+					break
+				}
+				e := vf07Ext{typ, vf07GenBody(rt, vf07StrictMark+l+"_b", typ), -1}
+				m.HasExts = true
+				if typ == 41 {
+					m.Exts = append(m.Exts, e)
+				} else {
+					j := rapid.IntRange(0, movable).Draw(rt, l+"_j")
+					m.Exts = append(m.Exts[:j:j], append([]vf07Ext{e}, m.Exts[j:]...)...)
+				}
+			case "drop":
+				if len(m.Exts) > 0 {
+					i := rapid.IntRange(0, len(m.Exts)-1).Draw(rt, l+"_i")
+					m.Exts = append(m.Exts[:i:i], m.Exts[i+1:]...)
+				}
+			case "swap":
+				if movable > 1 {
+					i := rapid.IntRange(0, movable-1).Draw(rt, l+"_i")
+					j := rapid.IntRange(0, movable-1).Draw(rt, l+"_j")
+					m.Exts[i], m.Exts[j] = m.Exts[j], m.Exts[i]
+				}
+			}
+			ops = append(ops, op)
+		}
+		flags := uint8(rapid.IntRange(0, 31).Draw(rt, "flags"))
+		rec := m.Bytes()
+		for _, o := range ops {
+			st.Class("vop:" + o)
+		}
+		if _, ok := vf07RawValid(rec); ok {
+			st.Class("unusual: refparse-valid")
+		} else {
+			st.Class("unusual: not valid")
+		}
+		st.Sample(map[string]any{"seed": s.Name, "ops": ops, "flags": flags, "len": len(rec)})
+		vf07CheckRaw(st, rt, rec, flags, s.Name+"+"+strings.Join(ops, "+"))
+	})
+}
+
 // ---- JSON documents for ClientHelloSpec.UnmarshalJSON ----
 
 func vf07Fixtures(t testing.TB) map[string][]byte {
